@@ -113,6 +113,7 @@ func (c *TCPConn) Read(p []byte) (int, error) {
 				c.rbuf = nil
 			}
 			c.NRead += int64(n)
+			raceRead()
 			simrt.Log("tcp:read", int64(c.Rec.ID)*2+int64(c.side), int64(n))
 			wakeAll(&c.peer.writers)
 			return n, nil
@@ -174,6 +175,7 @@ func (c *TCPConn) Write(p []byte) (int, error) {
 		if n > space {
 			n = space
 		}
+		raceWrite()
 		pe.rbuf = append(pe.rbuf, p[:n]...)
 		c.Wrote = append(c.Wrote, p[:n]...)
 		simrt.Log("tcp:write", int64(c.Rec.ID)*2+int64(c.side), int64(n))
